@@ -2,7 +2,8 @@
    Model: Model/Datalog.v.  `perfect_model` is the specification (iterated least fixpoints over
    the strata of the program); `eval_engine` is the engine's strategy (src/lib.rs
    execute_tuples_profiled).  Proofs: Proofs/DatalogMono.v, DatalogSpec.v, DatalogEngine.v. *)
-From IL Require Import Model.Value Model.Datalog Proofs.DatalogMono Proofs.DatalogSpec Proofs.DatalogEngine.
+From IL Require Import Model.Value Model.Datalog Proofs.DatalogMono Proofs.DatalogSpec Proofs.DatalogEngine Proofs.DatalogKahn.
+From Coq Require Import Lia.
 Open Scope N_scope.
 
 (* Full statement of the property on the model:
@@ -69,5 +70,44 @@ Proof.
   split; [vm_compute; reflexivity|]. split; [vm_compute; reflexivity|]. split; vm_compute; reflexivity.
 Qed.
 
+(* The execution-order hypothesis discharged: for every program whose dependency graph among heads is
+   acyclic apart from self-loops (witnessed by ANY rank function that decreases along dependencies) and
+   whose last head (the query) is not used by another head, Kahn's ordering as the engine computes it
+   outputs every head after its dependencies (Proofs/DatalogKahn.v: kahn_order_ok, kahn_complete,
+   acyclic_order_ok), so the engine answer is the perfect model's query relation. No per-case check of
+   the engine's order is left; what stays outside is exactly known-finding class 1 (mutual recursion). *)
+Theorem C01_acyclic_engine_is_perfect_model :
+  forall (fuel : nat) (p : program) (edb M : db) (ans : list tuple) (rank : rel -> nat),
+    no_aggb p = true ->
+    stratified p = true ->
+    heads_fresh p edb = true ->
+    (forall h g, In h (heads p) -> In g (deps p (heads p) h) -> (rank g < rank h)%nat) ->
+    (forall h, In h (heads p) -> ~ In (last (heads p) 0) (deps p (heads p) h)) ->
+    perfect_model fuel p edb = Some M ->
+    eval_engine fuel p edb = Some ans ->
+    topo_order p <> [] ->
+    incl ans (get M (engine_query p)) /\ incl (get M (engine_query p)) ans.
+Proof.
+  intros fuel p edb M ans rank Ha Hs Hf Hr HB HM He Hne.
+  exact (engine_correct p fuel edb (no_aggb_spec p Ha) Hs Hf M HM ans (acyclic_order_ok p rank Hr HB) He Hne).
+Qed.
+
+(* non-vacuity of the two graph hypotheses: tc_neg (self-recursive closure over a negated stratum) with
+   rank 10 -> 0, 11 -> 1, 99 -> 2 *)
+Example C01_acyclic_nonvacuous :
+  let rank := fun r : rel => if N.eqb r 10 then 0%nat else if N.eqb r 11 then 1%nat else 2%nat in
+  (forall h g, In h (heads tc_neg) -> In g (deps tc_neg (heads tc_neg) h) -> (rank g < rank h)%nat) /\
+  (forall h, In h (heads tc_neg) -> ~ In (last (heads tc_neg) 0) (deps tc_neg (heads tc_neg) h)).
+Proof.
+  cbv zeta. split.
+  - intros h g Hh Hg. vm_compute in Hh.
+    destruct Hh as [<-|[<-|[<-|[]]]]; vm_compute in Hg;
+      repeat (destruct Hg as [<-|Hg]; [vm_compute; lia|]); destruct Hg.
+  - intros h Hh. vm_compute in Hh.
+    destruct Hh as [<-|[<-|[<-|[]]]]; vm_compute; intros Hg;
+      repeat (destruct Hg as [Hg|Hg]; [discriminate Hg|]); destruct Hg.
+Qed.
+
 Print Assumptions C01_engine_is_perfect_model.
 Print Assumptions C01_refuted_mutual.
+Print Assumptions C01_acyclic_engine_is_perfect_model.
